@@ -25,6 +25,10 @@ impl Generator {
     pub(super) fn generate_internal(&mut self, source: &mut GenerationSource) -> Result<Vec<u8>> {
         #[cfg(feature = "verif")]
         crate::verif::on_phase(self, crate::verif::Phase::Begin, 0, source);
+        // start every call from a clean slate so a reused generator does not carry the
+        // previous pickle's output, stack, memo or PROTO flag into this one
+        self.reset();
+
         // decide if we'll use FRAME (only for protocol >= 4, randomly chosen)
         let use_frame = self.state.version >= Version::V4 && source.gen_bool();
 
